@@ -221,6 +221,12 @@ func runChild(req M, pre ...string) (res any, exit string) {
 	}
 	args := append(append([]string{}, pre...), self, "child")
 	cmd := exec.Command(args[0], args[1:]...)
+	if env, ok := req["env"].(M); ok {
+		cmd.Env = os.Environ()
+		for k, v := range env {
+			cmd.Env = append(cmd.Env, k+"="+asStr(v))
+		}
+	}
 	cmd.Stdin = strings.NewReader(js(req))
 	var out bytes.Buffer
 	cmd.Stdout = &out
@@ -290,7 +296,9 @@ func ExecStore(op M) (res any) {
 }
 
 var storeIDs = []string{"a", "b", "urn:uuid:3e671687-395b-41f5-a30f-a58921a69b79", "../escape", "../../etc/passwd", "/abs/olute", "a/b", "a//b", "a/../b", "./c", "c",
-	"日本語/ünï", "with space", "x\x00y", "..", ".", "\\win\\path", "https://example.com/doc#1", "https://example.com/doc#1/"}
+	"日本語/ünï", "with space", "x\x00y", "..", ".", "\\win\\path", "https://example.com/doc#1", "https://example.com/doc#1/",
+	// identifiers that are blank but not empty
+	" ", "\t", "\n", "\u00a0"}
 
 func (g *G) storeID() string {
 	switch g.Int(12) {
@@ -578,6 +586,11 @@ func crashExplore(op M) any {
 		}
 	}
 	req := M{"op": "storeOnce", "dir": dir, "id": id, "body": float64(bodyNew), "nc": nc}
+	if asStr(op["tmpdir"]) == "missing" {
+		// the storing process runs with a temporary directory that does not exist: atomicity must not
+		// depend on the environment
+		req["env"] = M{"TMPDIR": filepath.Join(root, "no-such-tmp")}
+	}
 	// inside the write: every torn prefix
 	step := 1
 	if len(enc) > 400 {
@@ -611,9 +624,9 @@ func crashExplore(op M) any {
 }
 
 func crashGen(g *G, tier string) []M {
-	n := 4
+	n := 6
 	if tier == "thorough" {
-		n = 40
+		n = 42
 	}
 	var ops []M
 	for i := 0; i < n; i++ {
@@ -622,7 +635,7 @@ func crashGen(g *G, tier string) []M {
 			bn++ // the new document has nodes
 		}
 		op := M{"op": "crash", "id": g.Pick([]string{"doc-1", "urn:uuid:1", "a/b"}), "bodyNew": float64(bn), "nc": false}
-		switch i % 4 {
+		switch i % 6 {
 		case 1:
 			op["bodyOld"] = float64(40 + g.Int(30))
 		case 2:
@@ -630,6 +643,17 @@ func crashGen(g *G, tier string) []M {
 			op["nc"] = true
 		case 3:
 			op["nc"] = true // first-time store with no-clobber
+		case 4:
+			// the previous document encodes to exactly as many bytes as the new one (same number of
+			// nodes, same name lengths): only the document name differs
+			bn = 11 + g.Int(4)
+			op["bodyNew"] = float64(bn)
+			op["bodyOld"] = float64(bn + 85)
+		case 5:
+			op["tmpdir"] = "missing"
+			if g.Chance(0.5) {
+				op["bodyOld"] = float64(40 + g.Int(30))
+			}
 		}
 		ops = append(ops, op)
 	}
